@@ -52,6 +52,15 @@ def make_cases(seed, tier, only=None, default_method="yescrypt"):
                 cases.append({"m": m, "fm": fm, "pk": kind, "prefix": prefix, "count": count, "nr": nr,
                               "rb": facts.rbytes_pattern(pat, nr, seed + nr), "pat": pat,
                               "ph": [gen.gen_phrase(rng, rng.choice([0, 8, 30])), gen.gen_phrase(rng, 72)]})
+    # every boundary class of count, deterministically (not left to the draw above): with all-ones and random bytes
+    for m in (only if only is not None else gen.METHODS + [None]):
+        fm = m or default_method
+        for count in facts.interesting_counts(fm):
+            for pat in ("ff", "rnd"):
+                rng = rt.rng_for(seed, PID, m, "count", count, pat)
+                cases.append({"m": m, "fm": fm, "pk": "tag" if m else "null", "prefix": gen.TAG[m] if m else None, "count": count,
+                              "nr": 64, "rb": facts.rbytes_pattern(pat, 64, seed + count % 97), "pat": pat,
+                              "ph": [gen.gen_phrase(rng, 8), gen.gen_phrase(rng, 72)]})
     return cases
 
 
